@@ -37,6 +37,8 @@ def scan_validation(run, tpls):
                 continue
             tr = rx.Tr(U)
             sp = Spec(U, mf, of)
+            if rx.split_leading_lookbehind(ast)[0]:
+                raise rx.Unsupported("leading look-behind: scan generation skipped (the lemmas decide)")
             L0 = tr.lang(ast, U.ANY, (0,), (0,))
             REC, WF = sp.REC((0,)), sp.WF((0,))
             queries = {
@@ -96,7 +98,9 @@ def scan_validation(run, tpls):
 
 def main():
     run = Run("C11", "model_checking", "RX+CH")
-    L = ("NE", "SA", "HX", "EA", "VAL")
+    # AEM at offset 0 is what makes "the first reported match is the leftmost one" a statement about the very first
+    # instruction of the listing as well (a rule that can only match after a separator would lose it)
+    L = ("AEM", "NE", "SA", "HX", "EA", "VAL")
     tpls = []
     for t in T.gamma7(tier(), seed()):
         t = dict(t)
